@@ -168,8 +168,8 @@ func main() {
 			}
 		}
 		// Random large inputs with edit scripts.
-		for i := 0; i < c.Size(2500, 60000); i++ {
-			p := rsx.RandomPair(c.R, c.Size(1500, 3000), c.Count)
+		for i := 0; i < c.Size(2500, 12000); i++ {
+			p := rsx.RandomPair(c.R, c.Size(1500, 2500), c.Count)
 			hasher := "sha1"
 			if c.R.Chance(1, 6) {
 				hasher = "ends"
